@@ -88,6 +88,8 @@ def conf_full(seed, knobs=None):
             w["stop_signal"] = rng.choice([scenario.SIGINT, scenario.SIGQUIT, scenario.SIGUSR1])
         if rng.random() < 0.1:
             w["send_hup"] = True
+        if rng.random() < k.get("mage", 0.1):
+            w["max_age"] = rng.choice([1, 1, 2])            # whole seconds: Watcher() truncates to int
         if rng.random() < k["hooks"]:
             hooks = {}
             for h in rng.sample(HOOK_NAMES, rng.choice([1, 1, 2, 3])):
@@ -535,6 +537,16 @@ def conf_kids(seed):
 
 
 PROFILES["conf_kids"] = conf_kids
+
+
+def conf_age(seed):
+    """conformance profile for max_age: workers expire in the periodic check (kill, reap, respawn), next to requests
+    that terminate them for other reasons"""
+    return conf_full(seed, {"mage": 0.8, "hooks": 0.15, "faults": 0.05, "fork": 0.3, "sch": 0.4, "steps": 10,
+                            "cmds": ["stop", "kill", "decr", "incr", "restart", "reload", "status", "signal"]})
+
+
+PROFILES["conf_age"] = conf_age
 
 
 def conf_pat(seed):
